@@ -16,6 +16,7 @@ import (
 	"encoding/json"
 	"fmt"
 	"os"
+	"path"
 	"sort"
 	"strconv"
 	"strings"
@@ -42,6 +43,8 @@ type Space struct {
 	Keys  int      `json:"keys"`  // bound on recorded HTLCs (0 = 3)
 	Extra []string `json:"extra"` // further events (not crossed with amounts and expiries)
 	Two   bool     `json:"two"`   // a bystander invoice exists next to the invoice under test
+	// Scheme names the VALUES the circuit keys k1..k8 stand for (keySchemes in world_test.go)
+	Scheme string `json:"scheme"`
 }
 
 // Alphabet lists the events, simplest first.
@@ -65,7 +68,69 @@ var (
 	ctlH  = []string{"r:1", "r:2", "r:3", "c", "s:r", "s:w", "t", "b"}
 )
 
+// spaces crosses the event-sequence spaces (baseSpaces) with the circuit-key schemes:
+//
+//	wide   EVERY space, at its full depth: k1 -- the key every first HTLC takes -- lies on an SCID
+//	       alias (uint64 >= 2^63), k2 on a confirmed channel with the same htlc id, k3 on the alias
+//	       with htlc id 2^63-1 (k4, where a space allows four HTLCs: confirmed channel, 2^63-1). So
+//	       every event kind of every space (accept, complete a set, settle, cancel, set timeout,
+//	       replay, restart, garbage collection, interceptor, AMP set bookkeeping) is executed on a key
+//	       with the top bit set, on the key-value and the SQL store in lock-step, and next to an
+//	       ordinary key in the same invoice.
+//	plain  the original values (confirmed channels, htlc ids 0 / 1): a twin of every space; the
+//	       twins of the large-alphabet spaces (>= 30 events) are bounded one event shorter (the
+//	       thorough tier's depths are one above the quick tier's, so its twins are deeper too).
+//	edge   (thorough) the boundaries of the integer ranges: 2^64-1, 2^63, 2^63-1, the last alias,
+//	       htlc ids 2^32 / 2^63-1: a twin of every space, same depth rule (measured: 26 twins,
+//	       56 k states, 8 min wall on the fully loaded machine).
+//
+// Twins run after all "wide" spaces (a deadline caps the twins first). Quick tier: the most
+// expensive special space (amp-special, a fifth of the sequential cost) runs last of the wide
+// spaces, so that under load the deadline does not starve the cheap configuration spaces.
 func spaces(thorough bool) []Space {
+	main, deep := baseSpaces(thorough)
+	if !thorough {
+		var first, last []Space
+		for _, sp := range main {
+			if sp.Name == "amp-special" {
+				last = append(last, sp)
+			} else {
+				first = append(first, sp)
+			}
+		}
+		main = append(first, last...)
+	}
+	var out []Space
+	for _, sp := range main {
+		sp.Scheme = "wide"
+		out = append(out, sp)
+	}
+	twin := func(sp Space, scheme string) Space {
+		sp.Name += "/" + scheme
+		sp.Scheme = scheme
+		if len(sp.Alphabet()) >= 30 && sp.Depth > 2 {
+			sp.Depth--
+		}
+		return sp
+	}
+	for _, sp := range deep {
+		sp.Scheme = "wide"
+		out = append(out, sp)
+	}
+	if thorough {
+		for _, sp := range main {
+			out = append(out, twin(sp, "edge"))
+		}
+	}
+	for _, sp := range main {
+		out = append(out, twin(sp, "plain"))
+	}
+	return out
+}
+
+// baseSpaces lists the event-sequence spaces (kind x alphabet x depth); deep = the spaces that
+// are to run last.
+func baseSpaces(thorough bool) (main, deep []Space) {
 	lo := []string{"ok", "lo"}
 	if !thorough {
 		return append([]Space{
@@ -76,7 +141,7 @@ func spaces(thorough bool) []Space {
 			{Name: "keysend", Kind: "keysend", Pays: []string{"Kr", "Kw", "Km", "L", "Mr0"}, Amts: amts5, Exps: lo, Ctl: ctlR, Depth: 4},
 			{Name: "amp", Kind: "amp", Pays: []string{"A10r0g", "A11r0g", "A11r0b", "A11r+g", "A11w0g", "A2sr0g", "Mr0", "L"}, Amts: amts3, Exps: lo, Ctl: ctlR, Depth: 3},
 			{Name: "amp-core", Kind: "amp", Pays: []string{"A10r0g", "A11r0g", "A11r0b", "A2sr0g"}, Amts: []int64{valueV / 2, valueV}, Exps: []string{"ok"}, Ctl: ctlR, Depth: 4},
-		}, append(specialSpaces(4, false), configSpaces(false)...)...)
+		}, append(specialSpaces(4, false), configSpaces(false)...)...), nil
 	}
 	exps := []string{"ok", "lo", "hi"}
 	ctlR4 := []string{"r:1", "r:2", "r:3", "r:4", "c", "t", "b"}
@@ -90,12 +155,13 @@ func spaces(thorough bool) []Space {
 		{Name: "regular", Kind: "regular", Pays: []string{"L", "Mr0", "Mr+", "Mr-", "Mw0", "Mw+"}, Amts: amts5, Exps: exps, Ctl: ctlR, Depth: 4},
 		{Name: "blinded", Kind: "blinded", Pays: []string{"L", "Pr0", "Pr+", "Pr-", "Pw0", "Mr0", "Mw0"}, Amts: amts5, Exps: exps, Ctl: ctlR, Depth: 4},
 		{Name: "amp", Kind: "amp", Pays: []string{"A10r0g", "A11r0g", "A11r0b", "A10r+g", "A11r+g", "A11w0g", "A2sr0g", "A2sr-g", "Mr0", "L"}, Amts: amts3, Exps: lo, Ctl: ctlR, Depth: 4},
+	}...), []Space{
 		// deeper, four recorded HTLCs, on the alphabet restricted to halves and wholes
 		{Name: "zero-deep", Kind: "zero", Pays: []string{"L", "Mr0", "Mr-"}, Amts: amts3, Exps: []string{"ok"}, Ctl: ctlR4, Depth: 6, Keys: 4},
 		{Name: "regular-deep", Kind: "regular", Pays: []string{"L", "Mr0", "Mr+"}, Amts: amts3, Exps: []string{"ok"}, Ctl: ctlR4, Depth: 6, Keys: 4},
 		{Name: "hold-deep", Kind: "hold", Pays: []string{"L", "Mr0", "Mr+"}, Amts: amts3, Exps: []string{"ok"}, Ctl: ctlH4, Depth: 6, Keys: 4},
 		{Name: "amp-deep", Kind: "amp", Pays: []string{"A10r0g", "A11r0g", "A11r0b", "A2sr0g"}, Amts: []int64{valueV / 2, valueV}, Exps: []string{"ok"}, Ctl: ctlR4, Depth: 6, Keys: 4},
-	}...)
+	}
 }
 
 // specialSpaces: one space per kind whose value alphabets consist of the structural
@@ -209,6 +275,7 @@ type replayDoc struct {
 	Kind    string   `json:"kind"`
 	Keys    int      `json:"keys,omitempty"`
 	Two     bool     `json:"two,omitempty"`
+	Scheme  string   `json:"scheme,omitempty"` // circuit-key scheme ("" = plain)
 	Stores  []string `json:"stores,omitempty"`
 	History []string `json:"history,omitempty"`
 	// Conc, if set, is an interleaving case (conc_test.go).
@@ -269,7 +336,7 @@ func replayWith(doc replayDoc, rep reporter, logf func(string, ...any)) int {
 	if doc.Conc != nil {
 		return replayConcDoc(doc, rep, logf)
 	}
-	w, err := newWorld(worldOpts{kind: doc.Kind, keys: doc.Keys, two: doc.Two, stores: doc.Stores, rep: rep, logf: logf})
+	w, err := newWorld(worldOpts{kind: doc.Kind, scheme: doc.Scheme, keys: doc.Keys, two: doc.Two, stores: doc.Stores, rep: rep, logf: logf})
 	if err != nil {
 		fmt.Printf("INFO cannot build world: %v\n", err)
 		return 0
@@ -277,6 +344,7 @@ func replayWith(doc replayDoc, rep reporter, logf func(string, ...any)) int {
 	defer w.Close()
 	if logf != nil {
 		logf("invoice kind %s: %s", doc.Kind, w.last[0].canon())
+		logf("circuit-key scheme %s: %s", w.scheme.Name, w.scheme.Doc)
 	}
 	for i, a := range doc.History {
 		if logf != nil {
@@ -327,10 +395,10 @@ func runSpace(run *evid.Run, sp Space, st *Stats, deadline time.Time, workers in
 		New: func(worker int) (seqmc.Sys, error) {
 			var w *World
 			rep := func(sig, what string, hist, full []string) {
-				theGate.report(run, sig, what, replayDoc{Kind: sp.Kind, Keys: sp.Keys, Two: sp.Two, History: hist}, full)
+				theGate.report(run, sig, what, replayDoc{Kind: sp.Kind, Keys: sp.Keys, Two: sp.Two, Scheme: sp.Scheme, History: hist}, full)
 			}
 			var err error
-			w, err = newWorld(worldOpts{kind: sp.Kind, keys: sp.Keys, two: sp.Two, rep: rep, st: st})
+			w, err = newWorld(worldOpts{kind: sp.Kind, scheme: sp.Scheme, keys: sp.Keys, two: sp.Two, rep: rep, st: st})
 			if err != nil {
 				return nil, err
 			}
@@ -367,7 +435,7 @@ func runSpace(run *evid.Run, sp Space, st *Stats, deadline time.Time, workers in
 		},
 	}, func(hist []string, v any) {
 		theGate.report(run, "panic:"+sp.Kind+":"+firstLine(fmt.Sprint(v)), fmt.Sprintf("panic while executing %v: %v", hist, v),
-			replayDoc{Kind: sp.Kind, Keys: sp.Keys, Two: sp.Two, History: hist}, nil)
+			replayDoc{Kind: sp.Kind, Keys: sp.Keys, Two: sp.Two, Scheme: sp.Scheme, History: hist}, nil)
 	})
 	return spaceResult{res: res, wall: time.Since(t0).Seconds(), ntri: ntri, settle: settle}
 }
@@ -425,7 +493,8 @@ func TestC15(t *testing.T) {
 	if only := os.Getenv("C15_SPACE"); only != "" {
 		var f []Space
 		for _, s := range sps {
-			if s.Name == only {
+			// an exact name, or a pattern ("*/edge", "amp*")
+			if ok, _ := path.Match(only, s.Name); ok || s.Name == only {
 				f = append(f, s)
 			}
 		}
@@ -459,13 +528,13 @@ func TestC15(t *testing.T) {
 			caps = append(caps, r.res.CapHit+" in space "+sp.Name)
 		}
 		perSpace = append(perSpace, map[string]any{
-			"space": sp.Name, "kind": sp.Kind, "alphabet_size": len(sp.Alphabet()), "depth_bound": sp.Depth,
+			"space": sp.Name, "kind": sp.Kind, "key_scheme": sp.Scheme, "alphabet_size": len(sp.Alphabet()), "depth_bound": sp.Depth,
 			"states": r.res.States, "states_per_depth": r.res.PerDepth, "transitions": r.res.Transitions,
 			"self_loops": r.res.SelfLoops, "fresh_instances": r.res.Replays, "unexpanded_states": r.res.Unexpanded,
 			"states_with_htlcs": r.ntri, "states_with_settled_htlc": r.settle, "exhaustive": r.res.Exhaustive,
 			"wall_s": r.wall, "cpu_s": cpu,
 		})
-		fmt.Printf("INFO space %-13s |A|=%d depth<=%d: %d states %v, %d transitions, %.1fs wall, %.1fs cpu%s\n", sp.Name, len(sp.Alphabet()), sp.Depth,
+		fmt.Printf("INFO space %-21s |A|=%d depth<=%d: %d states %v, %d transitions, %.1fs wall, %.1fs cpu%s\n", sp.Name, len(sp.Alphabet()), sp.Depth,
 			r.res.States, r.res.PerDepth, r.res.Transitions, r.wall, cpu, capNote(r.res))
 	}
 
@@ -503,6 +572,9 @@ func TestC15(t *testing.T) {
 	concBudget := 60 * time.Second
 	if run.Thorough() {
 		concBudget = 9 * time.Minute
+	}
+	if n := envInt("C15_CONC_BUDGET_S", 0); n > 0 {
+		concBudget = time.Duration(n) * time.Second
 	}
 	cc := runConc(run, time.Now().Add(concBudget), st)
 	caps = append(caps, cc.Caps...)
@@ -589,7 +661,10 @@ func TestC15(t *testing.T) {
 		"restart event R (the *-restart spaces, kshold): the registry is stopped and a new one started on the same store with the same clocks; the links come back with a new hodl channel; subscriptions and auto-release timers exist again only for HTLCs that were replayed to the new instance (part of the state key); "+
 			"the set-timeout event cancels exactly the accepted HTLCs of an open invoice for which the running instance holds a timer; a replay that is told 'held' for an HTLC whose hold time has passed waits for that HTLC's cancel resolution",
 		"an invoice may disappear only through the configured garbage collections: a successful CancelInvoice under GcCanceledInvoicesOnTheFly, a registry start under GcCanceledInvoicesOnStartup while the invoice is canceled; its HTLCs keep their last recorded state for the replay clause",
-		"circuit keys are interchangeable: a new HTLC always takes the lowest circuit key the invoice does not record (an HTLC refused without being recorded leaves no trace in the registry, so its key is free again); the keys share components the way real ones do (equal htlc ids on different channels, htlc id 0, several ids on one channel)",
+		"circuit keys are interchangeable as far as the registry's decisions go: a new HTLC always takes the lowest circuit key the invoice does not record (an HTLC refused without being recorded leaves no trace in the registry, so its key is free again); the keys share components the way real ones do (equal htlc ids on different channels, several ids on one channel). "+
+			"The VALUES of the key components are a dimension (key_scheme of every space and interleaving case): 'wide' -- every space at full depth -- k1 = (SCID alias 16000000:0:0, the first alias lnd's alias manager hands to a zero-conf / option_scid_alias channel, uint64 >= 2^63; htlc 0), k2 = (confirmed channel 700000:2:0, htlc 0), k3 = (the alias, htlc 2^63-1), k4 = (confirmed, 2^63-1), the concurrent links on a second alias and a second confirmed channel; "+
+			"'plain' -- a twin of every space (twins of spaces with >= 30 events one event shorter) -- confirmed channels 700000:1..4:0 with htlc ids 0 / 1; 'edge' (thorough; same depth rule) -- channel ids 2^64-1, 2^63, 2^63-1 and the last alias, htlc ids 2^32 / 2^63-1. "+
+			"htlc ids >= 2^63 are outside the universe: the SQL store documents them as unrepresentable (sql_store.go refuses a negative BIGINT htlc id) and a channel's htlc counter cannot reach them; the all-zero short channel id (hop.Source) is never an exit hop's incoming circuit",
 		"a replay is the exact re-notification of an HTLC the invoice records; an HTLC refused without being recorded is a new HTLC when presented again",
 		"the payment address is required iff the invoice's feature vector requires payment_addr (a blinded-path invoice, as generated by lnd, does not)",
 		"NOT in the alphabet: an HTLC to an invoice created up front whose keysend record holds the preimage of its own payment hash. lnd exempts it deliberately from the payment-address requirement (update.go updateLegacy, isValidKeySend: 'if this is a keysend payment, then we'll permit it to pass'); the sender demonstrably knows the preimage the settlement would release (observed: history h:kr:1000:ok on kind regular settles without address; reported to the lead, not judged)",
